@@ -1,7 +1,7 @@
 #!/bin/sh
 # tools/seedtest.sh <ID> <worktree> [tier]  - run one check against a scratch worktree holding a seeded change
 # (equivalent to `git -C /repo apply patch && ./check ID && git -C /repo checkout -- .`, without touching /repo while
-#  background runs use it). Evidence / replay files of these runs are scratch: restore with `git checkout evidence`.
+#  background runs use it). Evidence / replay files of such runs go to /tmp/pv_other_tree/<worktree>/.
 ID="$1"; WT="$2"; TIER="${3:-quick}"
 cd "$(dirname "$0")/.."
 PV_REPO="$WT" timeout 3000 ./check "$ID" --tier "$TIER" > "/tmp/wt/_seed_$ID.$TIER.log" 2>&1
